@@ -165,7 +165,18 @@ func TestSearchTabular(t *testing.T) {
 		wantRows, wantCols, wantCells := 0, 0, 0
 		var last *Row
 		var desc []string
+		colCalls := []string{}
+		colRegistered, wantColCalls := false, 0
 		for _, o := range h {
+			if !colRegistered && tb.NColumns() >= 1 {
+				if err := tb.RegisterPropertyCallback(tb.Column(1), CB_AT_ADD, CB_ON_CELL, searchCB{"col1", &colCalls, nil}); err != nil {
+					fail("failing history %s: registering a cell callback on column 1 failed: %v", strings.Join(desc, ","), err)
+				}
+				colRegistered = true
+			}
+			if colRegistered && ((o.kind == "row" && o.n >= 1) || o.kind == "items") {
+				wantColCalls++
+			}
 			desc = append(desc, fmt.Sprintf("%s%d", o.kind, o.n))
 			switch o.kind {
 			case "row":
@@ -223,6 +234,9 @@ func TestSearchTabular(t *testing.T) {
 				fail("failing history %s: callbacks out of order or skipped at %d: %v", hist, i, calls)
 				break
 			}
+		}
+		if len(colCalls) != wantColCalls {
+			fail("failing history %s: the cell callback of column 1 ran %d times, %d rows with a first cell were added after it was registered", hist, len(colCalls), wantColCalls)
 		}
 		if got := len(tb.Errors()); got != wantCells {
 			fail("failing history %s: %d errors recorded, the failing callback ran for %d cells", hist, got, wantCells)
